@@ -131,6 +131,17 @@ func runRoundTrip(o opts, out *Output, sig int) {
 				// sizes far outside what the generator draws: 70 KB names, 2 MB values, 20001 children of one item
 				data, big = extremeBatch(sig), true
 				stats["extreme_batches"]++
+			} else if c%40 == 5 && b == 1 {
+				// tens of thousands of attribute-bearing items (inside the id width) in a batch that also needs a schema update
+				switch sig {
+				case 0:
+					data = manySpans(40000, true, 1)
+				case 1:
+					data = manyLogs(40000)
+				default:
+					data = manyMetrics(40000)
+				}
+				stats["large_batches"]++
 			} else if c%40 == 27 {
 				// every string column of every record fresh on every item, each item in its own resource and scope
 				data = distinctRich(sig, 100+r.Intn(250), 1000*b, true)
